@@ -225,7 +225,7 @@ ADDED2 = {'C01': ' Later: conditional cascades fold in the direction that gives 
     'C11': ' Later: opset-gated sibling lowerings of one primitive derive each operand from the same equation inputs (R-C11h).',
     'C13': " Later: the scopes that trace user code with the substitutes installed isolate JAX's trace caches (R-C13h).", 'C14': " Later: memo keys that see a parameter only through __code__ / type() / __name__ are rejected (R-C14g); lowerings never mutate an equation's params dict in place (R-C14h).", 'C15': ' Later: the standard export clears an existing sidecar before saving, since onnx appends (R-C15e).',
     'C16': ' Later: no finally block leaves through return / break / continue (R-C16e).',
-    'C19': ' Later: positional slots are not named after another positional parameter of the original (R-C19a positional-order); argument normalisers read every documented form the way the library does or refuse it (R-C19j, finite-domain evaluation); keywords that reach bind() through **kwargs are handled, read or listed inert (R-C19k); defaults of substitutes agree with the library's (R-C19l).'}
+    'C19': ' Later: positional slots are not named after another positional parameter of the original (R-C19a positional-order); argument normalisers read every documented form the way the library does or refuse it (R-C19j, finite-domain evaluation); keywords that reach bind() through **kwargs are handled, read or listed inert (R-C19k); defaults of substitutes agree with those of the library (R-C19l).'}
 
 
 def main() -> int:
